@@ -519,12 +519,34 @@ func c16impl(c *core.Ctx, im *ssa.Function) {
 			if goW == nil || !core.InLoop(goW.Block()) {
 				return false, "workers are not spawned in a loop"
 			}
+			nAdd := 0
+			instrsFrames(func(ins ssa.Instruction) {
+				if call, isC := ins.(ssa.CallInstruction); isC && core.StdCallee(call.Common()) == "sync.(WaitGroup).Add" {
+					nAdd++
+				}
+			})
+			if nAdd != 1 {
+				return false, fmt.Sprintf("the WaitGroup is incremented at %d places: its counter would not equal the number of workers (Wait returns early or never)", nAdd)
+			}
 			addOK := false
 			for _, ins := range goW.Block().Instrs {
 				if ins == ssa.Instruction(goW) {
 					break
 				}
 				if call, isC := ins.(*ssa.Call); isC && core.StdCallee(&call.Call) == "sync.(WaitGroup).Add" && core.IsIntConst(call.Call.Args[1], 1) {
+					addOK = true
+				}
+			}
+			if !addOK {
+				// one Add(worker) for all workers, before the spawn loop (the loop spawns exactly `worker` goroutines: R4;
+				// 0 <= worker holds at this point: PMap's clamp)
+				var adds []*ssa.Call
+				instrsFrames(func(ins ssa.Instruction) {
+					if call, isC := ins.(*ssa.Call); isC && core.StdCallee(&call.Call) == "sync.(WaitGroup).Add" {
+						adds = append(adds, call)
+					}
+				})
+				if len(adds) == 1 && adds[0].Parent() == goW.Parent() && !core.InLoop(adds[0].Block()) && core.InstrDominates(adds[0], goW) && isWorker(adds[0].Call.Args[1]) {
 					addOK = true
 				}
 			}
@@ -845,6 +867,35 @@ func c16orderedStruct(p *core.Prog, im, producer, workerFn *ssa.Function, list, 
 			}
 		}
 	}
+	if !okC1 && !okC2 {
+		// direct placement: every entry (k, v) of a received map is stored at slot k of a slice made for the run
+		for _, fd := range core.DeepFind(p, im, func(ins ssa.Instruction) bool {
+			x, isSt := ins.(*ssa.Store)
+			if !isSt {
+				return false
+			}
+			ia, isIA := x.Addr.(*ssa.IndexAddr)
+			if !isIA {
+				return false
+			}
+			k, okK := ia.Index.(*ssa.Extract)
+			v, okV := x.Val.(*ssa.Extract)
+			if !okK || !okV || k.Tuple != v.Tuple || k.Index != 1 || v.Index != 2 {
+				return false
+			}
+			_, isNext := k.Tuple.(*ssa.Next)
+			return isNext
+		}) {
+			for _, src := range core.Origins(p, fd.Ins.(*ssa.Store).Addr.(*ssa.IndexAddr).X, fd.Stack) {
+				if _, isMk := src.Val.(*ssa.MakeSlice); isMk {
+					okC1, okC2 = true, true
+				}
+			}
+		}
+		if okC1 {
+			return true, "job key = element index → result key = job key → slot k = value received under key k"
+		}
+	}
 	if !okC1 || !okC2 {
 		return false, "results are not re-assembled by index (collected under their index and slot i filled from index i): output order would follow arrival order"
 	}
@@ -942,6 +993,35 @@ func c16ordered(p *core.Prog, im, producer, workerFn *ssa.Function, list, fParam
 					okC2 = true
 				}
 			}
+		}
+	}
+	if !okC1 && !okC2 {
+		// direct placement: every entry (k, v) of a received map is stored at slot k of a slice made for the run
+		for _, fd := range core.DeepFind(p, im, func(ins ssa.Instruction) bool {
+			x, isSt := ins.(*ssa.Store)
+			if !isSt {
+				return false
+			}
+			ia, isIA := x.Addr.(*ssa.IndexAddr)
+			if !isIA {
+				return false
+			}
+			k, okK := ia.Index.(*ssa.Extract)
+			v, okV := x.Val.(*ssa.Extract)
+			if !okK || !okV || k.Tuple != v.Tuple || k.Index != 1 || v.Index != 2 {
+				return false
+			}
+			_, isNext := k.Tuple.(*ssa.Next)
+			return isNext
+		}) {
+			for _, src := range core.Origins(p, fd.Ins.(*ssa.Store).Addr.(*ssa.IndexAddr).X, fd.Stack) {
+				if _, isMk := src.Val.(*ssa.MakeSlice); isMk {
+					okC1, okC2 = true, true
+				}
+			}
+		}
+		if okC1 {
+			return true, "job key = element index → result key = job key → slot k = value received under key k"
 		}
 	}
 	if !okC1 || !okC2 {
